@@ -244,6 +244,33 @@ def gen_direct(defs):
     P = [n for n in ast.walk(integ) if isinstance(n, ast.Assign) and ast.unparse(n.targets[0]) == 'P']
     if len(P) != 1 or ast.unparse(P[0].value) != 'row[None, :] * I_isqrt':
         raise Unsupported('_pyabel_direct_integral: integrand changed')
+    # ---- assembly of the integral (pinned statements) and the end-cell correction (translated) ----
+    def stmts(node):
+        return [ast.unparse(x) for x in ast.walk(node) if isinstance(x, (ast.Assign, ast.AugAssign))]
+    allst = stmts(integ)
+    for need in ("mask = II < JJ", "I_sqrt = np.zeros(R.shape)", "I_isqrt = np.zeros(R.shape)",
+                 "mask2 = (II > JJ - 2) & (II < JJ + 1)", "(R, Y) = np.meshgrid(r, r, indexing='ij')",
+                 "(II, JJ) = np.meshgrid(i_vect, i_vect, indexing='ij')", "i_vect = np.arange(len(r), dtype=int)",
+                 "out = np.zeros(f.shape)", "out[i, :] = int_func(P, axis=1, **int_opts)",
+                 "out[i, :] = out[i, :] - 0.5 * int_func(P * mask2, axis=1, **int_opts)",
+                 "isqrt = I_sqrt[II + 1 == JJ]", "ratio = np.append(np.cosh(1), r[2:] / r[1:-1])", "acr = np.arccosh(ratio)"):
+        if allst.count(need) != 1:
+            raise Unsupported('_pyabel_direct_integral: expected exactly one statement `%s` (found %d)' % (need, allst.count(need)))
+    cif = find_if(integ, 'correction == 1')
+    fr = only_assign(cif.body, 'f_r', '_pyabel_direct_integral')
+    defs.append(('direct_f_r', '(f1 f0 r1 r0 : A)',
+                 elem(fr.value, {'f[:, 1:]': 'f1', 'f[:, :-1]': 'f0', 'np.diff(r)[None, :]': '(sub r1 r0)'}, 'direct.py:%d' % fr.lineno),
+                 'abel/direct.py:%d  f_r = %s' % (fr.lineno, ast.unparse(fr.value))))
+    rif = find_if(integ, 'r[0] < r[1] * 1e-08')
+    ra2 = only_assign(rif.orelse, 'ratio', '_pyabel_direct_integral')
+    defs.append(('direct_ratio', '(r1 r0 : A)', elem(ra2.value, {'r[1:]': 'r1', 'r[:-1]': 'r0'}, 'direct.py:%d' % ra2.lineno),
+                 'abel/direct.py:%d  ratio = %s  (and np.append(np.cosh(1), r[2:]/r[1:-1]) when r[0] = 0)' % (ra2.lineno, ast.unparse(ra2.value))))
+    cl = [x for x in ast.walk(cif) if isinstance(x, ast.AugAssign)]
+    if len(cl) != 1 or not isinstance(cl[0].op, ast.Add) or ast.unparse(cl[0].target) != 'out[i, :-1]':
+        raise Unsupported('_pyabel_direct_integral: correction statement changed')
+    defs.append(('direct_corr', '(isq fr ac f0 r0 : A)',
+                 elem(cl[0].value, {'isqrt': 'isq', 'f_r[i]': 'fr', 'acr': 'ac', 'row[:-1]': 'f0', 'r[:-1]': 'r0'}, 'direct.py:%d' % cl[0].lineno),
+                 'abel/direct.py:%d  out[i, :-1] += %s' % (cl[0].lineno, ast.unparse(cl[0].value))))
     defs.append(('direct_weight', '(dx y r fv : A)', '(mul (mul fv (direct_I_isqrt y r)) dx)',
                  'abel/direct.py:%d  P = row[None, :] * I_isqrt, integrated with dx = |r[1]-r[0]|: one trapezoid term' % P[0].lineno))
 
